@@ -1431,5 +1431,13 @@ PROP = Prop(
                "sites and their precedences, format strings, own precedences, forced parentheses, the "
                "sorted sum, map_power's cases, the allocator protocol and name generators, __init__ / "
                "copy / copy_with_mapped_cses).",
+    level_note="Partial: gcc and floating point are runtime (oracle: programs compiled and run); the "
+               "value theorem covers the integer fragment cFrag under the property's guards (floor "
+               "division / remainder / shifts / bitwise on non-negative operands); pow(...) is opaque "
+               "text; copy() breaks name uniqueness (known finding with witness). Trusted: Lean "
+               "kernel; C99 operator grammar as modelled (ten levels); the reader extract/ccode.py.",
+    technique="Lean 4 invariant proofs over allocator histories + C-grammar reading of the emitted text "
+              "(value theorem on the integer fragment) + regenerated handler table with "
+              "interpreter-equals-model theorems + differential correspondence and gcc oracle",
     design_ref="DESIGN.md §4 C14",
 )
